@@ -43,6 +43,7 @@ func c17(e *Env) {
 	cfg.ReconnBase = 100 * time.Millisecond
 	cfg.ReconnMax = 2 * time.Second
 	w, pi := boot(e, cfg)
+	w.ScriptBeatsUnprepared = true
 	if pi.BootErr != nil || pi.Listener == nil {
 		if !w.Stopped() {
 			e.Res.Infra = "proxy did not boot: " + errStr(pi.BootErr)
@@ -207,8 +208,37 @@ func c17(e *Env) {
 		case 6:
 			msg = &message.Prepare{Query: "SELECT * FROM system." + hs()}
 		case 7:
+			// prepared ids are bytes of the client's choosing: odd lengths (a real id has 16), as
+			// EXECUTE or as BATCH children, answered by the backend with an error or a lost
+			// connection instead of the usual UNPREPARED
 			idb := []byte(hs() + "x")
-			msg = world.ExecMsg(idb[:min(len(idb), 300)], []byte("m"), tok, primitive.ConsistencyLevelOne)
+			if c.Choose("shortid", 2) == 1 {
+				idb = idb[:min(len(idb), 1+c.Choose("idlen", 20))]
+			}
+			idb = idb[:min(len(idb), 300)]
+			if c.Choose("idinbatch", 3) == 2 {
+				b := &message.Batch{Type: primitive.BatchTypeLogged, Consistency: primitive.ConsistencyLevelOne}
+				b.Children = append(b.Children, &message.BatchChild{Id: idb, Values: []*primitive.Value{primitive.NewValue([]byte(tok))}})
+				if c.Choose("idinbatch2", 2) == 1 {
+					b.Children = append(b.Children, &message.BatchChild{Query: "INSERT INTO ks.t (k, v) VALUES ('" + tok + "', 1)"})
+				}
+				msg = b
+			} else {
+				msg = world.ExecMsg(idb, []byte("m"), tok, primitive.ConsistencyLevelOne)
+			}
+			if c.Choose("iderr", 2) == 1 {
+				var outs []world.Outcome
+				for k := 0; k < len(w.Nodes)+1; k++ {
+					o := world.DrawOutcome(c, h.Version).Outcome
+					if o.Kind != world.OutError {
+						// error replies only: an outcome that kills the connection would also hit the
+						// designated healthy node, whose availability the canary oracle relies on
+						o = world.ErrOutcome("overloaded", &message.Overloaded{ErrorMessage: "overloaded"})
+					}
+					outs = append(outs, o)
+				}
+				w.Script[tok] = outs
+			}
 		default:
 			// a valid forwarded request (the mutation below does the damage), possibly answered maliciously
 			g := world.GenRequest(c, h.Version, tok, nil, nil, 256)
